@@ -20,7 +20,7 @@ use std::path::PathBuf;
 pub fn extra_engines(prop: &str, thorough: bool) -> Vec<sup::EnginePlan> {
     let mut v = Vec::new();
     let t = thorough;
-    if matches!(prop, "C02" | "C03" | "C04" | "C07" | "C08" | "C09" | "C10" | "C11") {
+    if matches!(prop, "C02" | "C03" | "C04" | "C07" | "C08" | "C09" | "C10" | "C11" | "C12") {
         let wd = if prop == "C09" { if t { 600 } else { 120 } } else if t { 2400 } else { 600 };
         v.push(sup::EnginePlan { engine: "sched", workers: 16, cases_per_worker: if t { 12000 } else { 2500 }, timeout_s: wd });
     }
@@ -55,7 +55,13 @@ pub fn rule_for(prop: &str, engine: &str) -> String {
         "fuzz" => format!("coverage-guided libFuzzer campaigns (AddressSanitizer and debug assertions on) over byte strings decoded into the same Case values; the same interpreter and oracle run inside the target; fixed -runs per worker; non-trivial by the rule of the sequential/component engine; distinct counted per worker and summed ({})", gen::rule_text(prop)),
         "cfg" => cfg_engine::RULE.to_string(),
         "deque" => comp_deque::RULE.to_string(),
-        "sched" => sched::RULE.to_string(),
+        "sched" => {
+            if prop == "C12" {
+                "programs of 2-3 real threads that only get / insert (and step the clock) on 2-4 resident keys after the periodic-sync window was left, with a generated list of preemptions, so that nothing is applied before the final sync(); the expected LRU order follows from the order in which reads were recorded and writes queued (scheduler trace); it is compared with the order in which popular newcomers then evict the residents; non-trivial = the comparison was conclusive and >= 1 generated preemption took place".to_string()
+            } else {
+                sched::RULE.to_string()
+            }
+        }
         "stress" => match prop {
             "C04" => stress::RULE_C04,
             "C16" => stress::RULE_C16,
